@@ -1,7 +1,7 @@
 (* The further library paths of Pool/Model.v are accepted by the ownership automaton whenever the
    objects they use are pairwise distinct. *)
 From Coq Require Import ZArith NArith List Bool Lia.
-From GoCoap Require Import Pool.Model Pool.Spec Pool.Proofs.
+From GoCoap Require Import Pool.Model Pool.Spec Pool.Proofs Pool.Writer.
 Import ListNotations.
 Open Scope Z_scope.
 
@@ -195,7 +195,9 @@ Inductive lib_path : list lc -> Prop :=
 | lp_notification n w : n <> w -> lib_path (path_notification n w)
 | lp_async_ping req tmps w : NoDup (tmps ++ [req] ++ olist w) -> lib_path (path_async_ping req tmps w)
 | lp_handler_setmessage m w new : NoDup [m; w; new] -> lib_path (path_handler_setmessage m w new)
-| lp_handler_swap m w new : NoDup [m; w; new] -> lib_path (path_handler_swap m w new).
+| lp_handler_swap m w new : NoDup [m; w; new] -> lib_path (path_handler_swap m w new)
+| lp_bw_receive k sr has wc stale env : NoDup env -> length env = 7%nat -> lib_path (path_bw_receive k sr has wc stale env)
+| lp_writer w m ops : w <> m -> wdisc w false [m] [w; m] ops = true -> lib_path (wtrace w ops).
 
 Lemma lib_path_accepted : forall p, lib_path p -> accepted p.
 Proof.
@@ -215,6 +217,8 @@ Proof.
   - apply path_async_ping_ok; assumption.
   - apply path_handler_setmessage_ok; assumption.
   - apply path_handler_swap_ok; assumption.
+  - apply path_bw_receive_ok; assumption.
+  - apply (wdisc_accepted w m); assumption.
 Qed.
 
 (* any number of library paths, each on its own objects, run concurrently in any interleaving: the resulting
